@@ -188,6 +188,8 @@ def match_known(prop, v, known):
             if key in ("observed", "expected"):
                 have = json.dumps(have, sort_keys=True)
                 ok = ok and (want in have)
+            elif key == "key":
+                ok = ok and str(have).startswith(want)
             else:
                 ok = ok and (have == want)
         if ok and m:
